@@ -218,7 +218,7 @@ fn rect_complete_opt(max_w: i32, max_h: i32, max_x: i32, max_y: i32, orders: usi
     }
 }
 
-//@ harness: o5_2_rect_complete_small props=C05,C03 tier=quick obl=O5.2 timeout=800 mem=28 flags=--no-memory-safety-checks,--no-assertion-reach-checks
+//@ harness: o5_2_rect_complete_small props=C05 tier=quick obl=O5.2 timeout=800 mem=28 flags=--no-memory-safety-checks,--no-assertion-reach-checks
 //@ desc: the 4 sides of every closed box with w in 1..6, h in 1..4 cells at origins <= (4,4), in 3 representative slice orders, any dashedness: endorse_rect returns exactly that rect, dashed iff a side is dashed, not filled, no radius; bounded Vec; Line::is_touching replaced by its exact lattice specification (equivalence decided by o6_1_touching_exact*)
 //@ encodes: endorse::endorse_rect, endorse::is_rect, endorse::parallel_aabb_group, Line::is_touching_aabb_perpendicular
 #[kani::proof]
@@ -426,7 +426,7 @@ fn o5_3_rounded_complete_anyorder() {
     rounded_complete(12, 6, 3, 3, true);
 }
 
-//@ harness: o1_5_parallel_pairs_are_lines props=C01,C05 tier=quick obl=O1.5 timeout=800 mem=12
+//@ harness: o1_5_parallel_pairs_are_lines props=C01 tier=quick obl=O1.5 timeout=800 mem=12
 //@ desc: parallel_aabb_group on ANY 4 fragments whose variants are symbolic among Line (symbolic lattice payload), Arc, Circle, Rect, MarkerLine: every index pair it returns refers to two distinct Line fragments and no index occurs twice - so the as_line().expect("expecting a line") calls of is_rect / is_rounded_rect, which only index through these pairs, cannot fire; bounded Vec
 //@ encodes: endorse::parallel_aabb_group, Fragment::is_aabb_parallel, Line::is_aabb_parallel
 #[kani::proof]
